@@ -10,7 +10,7 @@ THEOREMS = ['C11.C11_string_order', 'C11.C11_keys_order', 'C11.C11_compare_order
             'C11.C11_sorted_perm_unique', 'C11.C11_alphabet_nodup', 'C11.C11_alphabet_lower', 'C11.C11_case_counterexample',
             'C11.C11_zero_weight_counterexample', 'C11.C11_file_cycle_counterexample', 'C11.C11_sort_order_partial',
             'C11.C11_sort_canonical_partial', 'C11.C11_reference_sort']
-NOID = {'comment', 'hat', 'profile', 'all'}       # kinds whose Compare ignores part of the rule on purpose
+NOID = {'comment', 'hat', 'profile'}       # kinds whose Compare ignores part of the rule on purpose
 WEIGHTLESS = {'comment', 'abi', 'alias', 'variable'}
 
 
@@ -125,30 +125,50 @@ def run(ctx):
 
     # ---- sort: idempotent, permutation invariant, equal to the reference sort ------------------------
     lists = []
+    cands = []
     for i in range(n // 6):
         k = rng.choice(list(R.SCHEMA)) if rng.random() < 0.6 else None
         base = [g.rule(k) for _ in range(rng.randint(2, 7))]
         base += [g.perturb(rng.choice(base)) for _ in range(rng.randint(0, 3))]
-        if not all(g.canon(r) for r in base):
-            continue
-        if any(r['kind'] in NOID for r in base):
-            continue
+        reason = None
         kinds = {r['kind'] for r in base}
-        if len(kinds) > 1 and kinds & WEIGHTLESS:
-            continue                # K_weightlessKinds
         incs = {r['f'][0] for r in base if r['kind'] == 'include'}
-        if len(incs) > 1 and len(kinds) > 1:
-            continue                # K_includeIfExistsMixed
         fl = [g.letter(r['f'][1]) != '' for r in base if r['kind'] == 'file']
-        if len(set(fl)) > 1:
-            continue                # K_filePrefixCycle
+        if not all(g.canon(r) for r in base):
+            reason = 'K_case'
+        elif any(r['kind'] in NOID for r in base):
+            reason = 'noid'
+        elif len(kinds) > 1 and kinds & WEIGHTLESS:
+            reason = 'K_weightlessKinds'
+        elif len(incs) > 1 and len(kinds) > 1:
+            reason = 'K_includeIfExistsMixed'
+        elif len(set(fl)) > 1:
+            reason = 'K_filePrefixCycle'
         # distinct rules only (ties between identical rules differ by Base only)
         seen, uniq = set(), []
         for r in base:
             if R.key(r) not in seen:
                 seen.add(R.key(r))
                 uniq.append(dict(r, comment=''))
-        lists.append(uniq)
+        cands.append((uniq, reason))
+    # the domain of the sort theorem, evaluated by the Lean predicate itself (Aa.DomS, decidable) on every rule
+    dres = ctx.run_lean('doms', ['\t'.join(R.enc(r) for r in l) for l, _ in cands])
+    ctx.cov['evaluations'] += len(cands)
+    nin = nmis = 0
+    for (l, reason), d in zip(cands, dres):
+        marks = d[3:].split(';') if d.startswith('ok') and len(d) > 3 else ['0']
+        in_dom = '0' not in marks and not ('t' in marks and 'f' in marks)
+        if in_dom:
+            nin += 1
+            if reason:
+                nmis += 1
+                if nmis <= 2:
+                    broken.append('the known-class filter of the sort search (%s) sets aside a list that lies in the domain of C11_sort_canonical_partial' % reason)
+                reason = None
+        if reason is None:
+            lists.append(l)
+    ctx.cov['search']['sort_domain'] = {'candidate_lists': len(cands), 'in_the_domain_of_the_theorem': nin, 'judged': len(lists),
+                                        'filter_vs_domain_mismatches': nmis}
     sort_ops = ['\t'.join(R.enc(r) for r in l) for l in lists]
     shuf_ops = []
     for l in lists:
